@@ -479,6 +479,11 @@ fn parse_v6<B: BufRead>(
     let s2k_data = i.read_take(s2k_len.into());
     let s2k = StringToKey::try_from_reader(s2k_data)?;
     let iv = i.take_bytes(aead.iv_size())?;
+    // what `to_writer` puts into the count octet must fit it
+    ensure!(
+        3 + s2k.write_len() + iv.len() <= 255,
+        "SKESK v6 parameter fields too long"
+    );
     let aead_tag_size = aead.tag_size().unwrap_or_default();
     let esk = i.rest()?;
     if esk.len() < aead_tag_size {
